@@ -269,6 +269,7 @@ def make_strategy(symbol, script, ctx):
                     ev['price'] = f'error:{type(e).__name__}'
                 ev.update(pos_qty=float(p.qty), pos_entry=None if p.entry_price is None else float(p.entry_price),
                           balance=float(self.balance), margin=float(self.available_margin))
+                ev['accounts'] = snapshot_accounts()
                 if name in ('before', 'after'):
                     ev['active'] = [getattr(o, '_vf_ord', None) for o in store.orders.get_orders(CUR_EX[0], symbol) if o.is_active]
                 if name == 'after':
